@@ -1,6 +1,7 @@
 package main
 
 import (
+	"go/token"
 	"fmt"
 	"go/ast"
 	"go/types"
@@ -42,7 +43,11 @@ func c06RunModeSwitch(c *Check, a *Anchors) {
 		return true
 	})
 	if sw == nil {
-		c.Bad("run-mode-switch", "switch@"+name, fb.Decl.Pos(), "GetHash no longer switches on the run mode")
+		// table form: h, ok := <package-level map[string]hash.HashFunc>[mode]; !ok -> error
+		if c06RunModeTable(c, a, fb) {
+			return
+		}
+		c.Bad("run-mode-switch", "switch@"+name, fb.Decl.Pos(), "GetHash neither switches on the run mode nor looks it up in a table of hash functions")
 		return
 	}
 	// tag provenance
@@ -258,4 +263,134 @@ func c06OnceKey(c *Check, a *Anchors) {
 		return true
 	})
 	c.Decide(usesTask && usesStruct, "once-key", "name-and-structure@"+fnDisplay(hashFn), hashFn.Decl.Pos(), "key = f(Task, hashstructure(task))", "the when_changed key does not combine the task name with the structural hash of the compiled task")
+}
+
+
+// c06RunModeTable decides the same mapping when GetHash looks the mode up in a package-level map literal.
+func c06RunModeTable(c *Check, a *Anchors, fb *FuncBody) bool {
+	info := fb.Info()
+	name := fnDisplay(fb)
+	var ix *ast.IndexExpr
+	var okVar *types.Var
+	inspectBody(fb.Body, func(nd ast.Node) bool {
+		as, ok := nd.(*ast.AssignStmt)
+		if !ok || len(as.Lhs) != 2 || len(as.Rhs) != 1 {
+			return true
+		}
+		if x, ok := ast.Unparen(as.Rhs[0]).(*ast.IndexExpr); ok {
+			if tv, ok := info.Types[x.X]; ok {
+				if _, isMap := tv.Type.Underlying().(*types.Map); isMap {
+					ix, okVar = x, varOf(info, as.Lhs[1])
+				}
+			}
+		}
+		return true
+	})
+	if ix == nil {
+		return false
+	}
+	tbl := varOf(info, ix.X)
+	if tbl == nil || tbl.Parent() != tbl.Pkg().Scope() {
+		return false
+	}
+	// the index: cmp.Or(t.Run, e.Taskfile.Run)
+	idx := ix.Index
+	if v := varOf(info, idx); v != nil {
+		if d := singleDef(info, fb.Body, v); d != nil {
+			idx = d
+		}
+	}
+	tagOK := false
+	if call, ok := ast.Unparen(idx).(*ast.CallExpr); ok && isFunc(callee(info, call), "cmp", "", "Or") && len(call.Args) == 2 {
+		tagOK = fieldSel(info, call.Args[0], PkgAst, "Task", "Run") && fieldSel(info, call.Args[1], PkgAst, "Taskfile", "Run")
+	}
+	c.Decide(tagOK, "run-mode-switch", "task-mode-wins@"+name, ix.Pos(), "cmp.Or(t.Run, e.Taskfile.Run)", "the run mode is not `cmp.Or(task.Run, Taskfile.Run)`: the task's own run: setting no longer overrides the Taskfile's")
+	// the table literal
+	got := map[string]string{}
+	var lit *ast.CompositeLit
+	for _, f := range fb.Pkg.Syntax {
+		ast.Inspect(f, func(nd ast.Node) bool {
+			vs, ok := nd.(*ast.ValueSpec)
+			if !ok {
+				return true
+			}
+			for i, id := range vs.Names {
+				if info.Defs[id] == tbl && i < len(vs.Values) {
+					lit, _ = ast.Unparen(vs.Values[i]).(*ast.CompositeLit)
+				}
+			}
+			return true
+		})
+	}
+	if lit == nil {
+		return false
+	}
+	for _, e := range lit.Elts {
+		kv, ok := e.(*ast.KeyValueExpr)
+		if !ok {
+			continue
+		}
+		fnName := exprStr(kv.Value)
+		ast.Inspect(kv.Value, func(nd ast.Node) bool {
+			if id, ok := nd.(*ast.Ident); ok {
+				if f, ok := info.Uses[id].(*types.Func); ok && f.Pkg() != nil && f.Pkg().Path() == PkgHash {
+					fnName = f.Name()
+				}
+			}
+			return true
+		})
+		if t := constText(info, kv.Key); t != "" {
+			got[t] = fnName
+		} else {
+			got[exprStr(kv.Key)] = fnName
+		}
+	}
+	want := map[string]string{`"always"`: "Empty", `"once"`: "Name", `"when_changed"`: "Hash"}
+	for _, k := range []string{`"always"`, `"once"`, `"when_changed"`} {
+		c.Decide(got[k] == want[k], "run-mode-switch", "case "+k+"@"+name, lit.Pos(), "-> hash."+want[k], fmt.Sprintf("run mode %s selects hash.%s, expected hash.%s", k, got[k], want[k]))
+	}
+	for k := range got {
+		if _, ok := want[k]; !ok {
+			c.Bad("run-mode-switch", "case "+k+"@"+name, lit.Pos(), "unexpected run mode entry "+k)
+		}
+	}
+	// the table is never written after initialisation
+	written := false
+	for _, b := range c.P.BodiesIn(PkgTask) {
+		binfo := b.Info()
+		inspectBody(b.Body, func(nd ast.Node) bool {
+			if as, ok := nd.(*ast.AssignStmt); ok {
+				for _, l := range as.Lhs {
+					if x, ok := ast.Unparen(l).(*ast.IndexExpr); ok && varOf(binfo, x.X) == tbl {
+						written = true
+					}
+					if varOf(binfo, l) == tbl {
+						written = true
+					}
+				}
+			}
+			return true
+		})
+	}
+	c.Decide(!written, "run-mode-switch", "table-constant@"+name, lit.Pos(), "the table is only initialised", "the run-mode table is modified at run time")
+	// a miss returns an error
+	defaultErr := false
+	f := NewFlow(c.P, fb, func(call *ast.CallExpr, obj types.Object) string { return "" })
+	f.Run()
+	inspectBody(fb.Body, func(nd ast.Node) bool {
+		ifs, ok := nd.(*ast.IfStmt)
+		if !ok {
+			return true
+		}
+		if u, ok := ast.Unparen(ifs.Cond).(*ast.UnaryExpr); ok && u.Op == token.NOT && varOf(info, u.X) == okVar {
+			for _, r := range returnsOf(ifs.Body) {
+				if res := errResult(r); res != nil && !isNilLit(info, res) {
+					defaultErr = true
+				}
+			}
+		}
+		return true
+	})
+	c.Decide(defaultErr, "run-mode-switch", "default-errors@"+name, ix.Pos(), "unknown modes return an error", "an unknown run mode no longer returns an error")
+	return true
 }
